@@ -1590,6 +1590,8 @@ void MDSDRV_Linker::add_song(RIFF& mds, const std::string& filename)
 			uint32_t addr = seq_sdata + read_le32(data, 0)*2;
 			Wave_Bank::Sample header;
 			header.from_bytes(std::vector<uint8_t>(data.begin()+4, data.end()));
+			if((uint64_t)header.position + header.size > pcmd.size())
+				throw InputError(nullptr, ".MDS data is malformed (PCM header points outside the PCM data)");
 			auto begin = pcmd.begin() + header.position;
 			auto end = pcmd.begin() + header.position + header.size;
 			header.position = 0;
